@@ -18,8 +18,8 @@ P = "C07"
 
 def _params_int(tier):
     # stripes over the magnitude: |v| < 2^(8k) ... keeps every job small; union = [-2^B, 2^B]
-    B = 72 if tier == "quick" else 4104
-    step = 8 if tier == "quick" else 216
+    B = 72 if tier == "quick" else 1032
+    step = 8 if tier == "quick" else 48
     out = []
     lo = 0
     while lo < B:
@@ -28,7 +28,7 @@ def _params_int(tier):
     return out
 
 
-@harness(P, params=_params_int, bounds="INTEGER/ENUMERATED value v with 2^lo_bits <= |v|+1 <= 2^hi_bits, stripes cover |v| <= 2^72 (quick) / 2^4104 (thorough); "
+@harness(P, params=_params_int, bounds="INTEGER/ENUMERATED value v with 2^lo_bits <= |v|+1 <= 2^hi_bits, stripes cover |v| <= 2^72 (quick) / 2^1032 (thorough: past the one- and two-octet DER length forms); "
          "tag: default, or context-specific primitive [n] with n symbolic in [0,2^32)", outside="|v| beyond the stated range",
          must_reach=("int: encoding is minimal DER", "int: read back"))
 def int_roundtrip(c, lo_bits, hi_bits):
